@@ -613,7 +613,11 @@ def c14_make_twin(base, rng):
         while rng.chance(2, 5):
             ops_b.append(copy.deepcopy(MAINT_OPS[rng.below(len(MAINT_OPS))]))
         pos_b.append(len(ops_b))
-        ops_b.append(copy.deepcopy(op))
+        if op.get("op") == "restart" and b["cfg"]["durability"] != "immediate":
+            # batched / async modes promise the state for a graceful shutdown only
+            ops_b.append({"op": "shutdown_restart"})
+        else:
+            ops_b.append(copy.deepcopy(op))
     while rng.chance(1, 2):
         ops_b.append(copy.deepcopy(MAINT_OPS[rng.below(len(MAINT_OPS))]))
     # immediate mode promises that a plain process exit + restart reproduces the state; batched and
